@@ -66,12 +66,12 @@ func main() {
 // ---------------------------------------------------------------------------
 
 type RunRecord struct {
-	Run    uint64        `json:"run"`
-	Stats  *RunStats     `json:"stats"`
-	Viol   *ViolationRec `json:"viol,omitempty"`
-	Replay string        `json:"replay,omitempty"`
-	WallMs int64         `json:"wall_ms"`
-	NBlocks int          `json:"nblocks"`
+	Run     uint64        `json:"run"`
+	Stats   *RunStats     `json:"stats"`
+	Viol    *ViolationRec `json:"viol,omitempty"`
+	Replay  string        `json:"replay,omitempty"`
+	WallMs  int64         `json:"wall_ms"`
+	NBlocks int           `json:"nblocks"`
 }
 
 // executeSchedule runs one schedule from genesis with the monitors of prop.
@@ -641,27 +641,27 @@ func (a *agg) evidence(prop, tier string, seed uint64, wall, searchWall float64,
 		"distinct_nontrivial": len(a.sigs),
 		"rule": "one evaluation = one seeded run (configuration + schedule drawn from splitmix64(VERIF_SEED, property, run index), executed from genesis on the real app with the property's monitor after every step). " +
 			"A run is non-trivial when " + nontrivialRule[prop] + ". distinct = distinct run signatures among non-trivial runs; signature = hash of the sequence of (step kind, outcome class, abstract-state class) where the abstract-state class buckets #positions, #unbonding buckets, #buckets with >1 entry, #redelegations, #jailed, #non-bonded validators and the rebalance flag.",
-		"samples":                  samples,
-		"nontrivial_runs":          a.nontrivial,
-		"monitored_steps":          a.steps,
-		"blocks":                   a.blocks,
-		"simulated_time_s":         a.simS,
-		"runs_per_hour":            rph,
-		"workers":                  workers,
-		"ops_by_kind":              a.ops,
-		"ops_ok":                   a.opsOK,
-		"ops_failed":               a.opsFailed,
-		"faults_fired":             a.faults,
-		"probes":                   a.probes,
-		"coverage_gaps":            gaps,
-		"clause_evaluations":       a.clauses,
-		"known_finding_hits":       a.known,
-		"witness_replays":          witness,
-		"halted_runs":              a.halted,
+		"samples":                     samples,
+		"nontrivial_runs":             a.nontrivial,
+		"monitored_steps":             a.steps,
+		"blocks":                      a.blocks,
+		"simulated_time_s":            a.simS,
+		"runs_per_hour":               rph,
+		"workers":                     workers,
+		"ops_by_kind":                 a.ops,
+		"ops_ok":                      a.opsOK,
+		"ops_failed":                  a.opsFailed,
+		"faults_fired":                a.faults,
+		"probes":                      a.probes,
+		"coverage_gaps":               gaps,
+		"clause_evaluations":          a.clauses,
+		"known_finding_hits":          a.known,
+		"witness_replays":             witness,
+		"halted_runs":                 a.halted,
 		"other_property_observations": a.other,
-		"foreign_halts":            a.foreign,
-		"violation_classes":        nclasses,
-		"profile":                  describeProfile(profileFor(prop)),
+		"foreign_halts":               a.foreign,
+		"violation_classes":           nclasses,
+		"profile":                     describeProfile(profileFor(prop)),
 		"components": map[string]any{
 			"real": []string{"x/alliance keeper, msg server, query server, hooks, EndBlocker, genesis, bindings, custom/bank (from /repo working tree)",
 				"cosmos-sdk v0.50 x/bank, x/staking, x/distribution, x/slashing, x/evidence, x/mint, x/auth, module manager Begin/EndBlock order of app.go",
